@@ -23,7 +23,7 @@ type Case struct {
 
 func (c Case) String() string {
 	var b strings.Builder
-	b.WriteString(":- dynamic(d/1). :- dynamic(e/2).\n")
+	b.WriteString(":- dynamic(d/1). :- dynamic(e/2). :- dynamic(z/0).\n")
 	for _, cl := range c.Initial {
 		b.WriteString(gen.ClauseText(cl) + "\n")
 	}
@@ -87,6 +87,9 @@ func (x *gg) val(vars bool) *rt.Term {
 }
 
 func (x *gg) head(vars bool) *rt.Term {
+	if x.n(0, 9, "z") == 9 { // a predicate without arguments: all its facts are the same term
+		return rt.A("z")
+	}
 	if x.p(70, "d") {
 		return rt.C("d", x.val(vars))
 	}
@@ -181,6 +184,9 @@ func listingQuery(name string, arity int) (string, *rt.Term) {
 		args[i] = rt.V(int64(i))
 	}
 	h := rt.C(name, args...)
+	if arity == 0 {
+		h = rt.A(name)
+	}
 	q := rt.C("findall", rt.C(":-", h, rt.V(10)), rt.C("clause", h, rt.V(10)), rt.V(11))
 	return q.Text(map[int64]string{0: "A0", 1: "A1", 10: "B", 11: "L"}) + ".", h
 }
@@ -191,12 +197,13 @@ func runHistory(c Case, skipErased bool) (st stats, discard string, err error) {
 	m.SkipErased = skipErased
 	m.Declare("d", 1)
 	m.Declare("e", 2)
+	m.Declare("z", 0)
 	if e := m.Consult(groupByPred(c.Initial)); e != nil {
 		return st, "budget", nil
 	}
 	i := sut.New()
 	var b strings.Builder
-	b.WriteString(":- dynamic(d/1).\n:- dynamic(e/2).\n")
+	b.WriteString(":- dynamic(d/1).\n:- dynamic(e/2).\n:- dynamic(z/0).\n")
 	for _, cl := range groupByPred(c.Initial) {
 		b.WriteString(gen.ClauseText(cl) + "\n")
 	}
@@ -228,7 +235,7 @@ func runHistory(c Case, skipErased bool) (st stats, discard string, err error) {
 		for _, pr := range []struct {
 			n string
 			a int
-		}{{"d", 1}, {"e", 2}} {
+		}{{"d", 1}, {"e", 2}, {"z", 0}} {
 			want, exists := m.Listing(pr.n, pr.a)
 			q, _ := listingQuery(pr.n, pr.a)
 			lr := i.Query(q, []string{"L"}, 1, 200000)
